@@ -514,4 +514,182 @@ theorem run_keeps_trykill (P : Prog) (c0 : Cfg) (evs : List Ev) (hno : Ev.tickCb
     have he : e ≠ .tickCb .trykill := fun hh => hno (by rw [hh]; exact List.mem_cons_self ..)
     exact ih _ (fun hh => hno (List.mem_cons_of_mem _ hh)) (((step_fr P c0 e).2 he).keep h)
 
+/-! ### cancelling the future, then `try_killing`, is `kill()`
+
+`sfh c f h` is `c` with another process-future object.  Apart from `cancelFut`, the entering hooks of a terminal state and
+`on_except` (`enteringHooks`, `setFutExc`), no model function reads or writes the future: each commutes with `sfh`. -/
+
+def sfh (c : Cfg) (f : PFut) (h : Bool) : Cfg := { c with fut := f, futHasKillCb := h }
+
+theorem sfh_sfh (c : Cfg) (f h f' h') : sfh (sfh c f h) f' h' = sfh c f' h' := rfl
+theorem sfh_self (c : Cfg) : sfh c c.fut c.futHasKillCb = c := rfl
+
+macro "comm_sfh" : tactic => `(tactic| ((repeat' split) <;> first | rfl | simp_all))
+
+theorem hand_sfh (c : Cfg) (i f h) : hand (sfh c f h) i = sfh (hand c i) f h := by
+  simp only [hand, sfh]; comm_sfh
+theorem setActionStatus_sfh (c : Cfg) (i s f h) : setActionStatus (sfh c f h) i s = sfh (setActionStatus c i s) f h := by
+  simp only [setActionStatus, sfh]; comm_sfh
+theorem cancelAction_sfh (c : Cfg) (i f h) : cancelAction (sfh c f h) i = sfh (cancelAction c i) f h := by
+  unfold cancelAction
+  rw [setActionStatus_sfh]
+  have : actionStatus (sfh c f h) i = actionStatus c i := rfl
+  rw [this]; comm_sfh
+theorem cancelInterrupt_sfh (c : Cfg) (f h) : cancelInterrupt (sfh c f h) = sfh (cancelInterrupt c) f h := by
+  unfold cancelInterrupt
+  have : (sfh c f h).interrupt = c.interrupt := rfl
+  rw [this]; split
+  · exact cancelAction_sfh ..
+  · rfl
+theorem setInterruptFromExc_sfh (c : Cfg) (k n f h) :
+    setInterruptFromExc (sfh c f h) k n = sfh (setInterruptFromExc c k n) f h := by
+  unfold setInterruptFromExc
+  rw [cancelInterrupt_sfh]; rfl
+theorem interruptState_sfh (c : Cfg) (k f h) : interruptState (sfh c f h) k = sfh (interruptState c k) f h := by
+  simp only [interruptState, sfh]; comm_sfh
+theorem requestInterrupt_sfh (c : Cfg) (k f h) : requestInterrupt (sfh c f h) k = sfh (requestInterrupt c k) f h := by
+  unfold requestInterrupt
+  have h1 : ({ sfh c f h with nextCookie := (sfh c f h).nextCookie + 1 } : Cfg) = sfh { c with nextCookie := c.nextCookie + 1 } f h := rfl
+  have h2 : (sfh c f h).nextCookie = c.nextCookie := rfl
+  rw [h1, h2, setInterruptFromExc_sfh, interruptState_sfh]
+theorem exitState_sfh (c : Cfg) (f h) : exitState (sfh c f h) = sfh (exitState c) f h := by
+  simp only [exitState, sfh]; comm_sfh
+theorem enterState_sfh (c : Cfg) (s f h) : enterState (sfh c f h) s = sfh (enterState c s) f h := by
+  unfold enterState; split
+  · rename_i aw
+    have : ∀ (l : List (Nat × Nat)) (d : Cfg),
+        l.foldl (fun c (p : Nat × Nat) =>
+          let c := { c with efKeys := p :: c.efKeys }
+          match c.efs[p.1]? with
+          | some EFut.pending => { c with efCb := c.efCb ++ [p.1] }
+          | some _ => { c with ready := c.ready ++ [.adone p.1] }
+          | none => c) (sfh d f h) =
+        sfh (l.foldl (fun c (p : Nat × Nat) =>
+          let c := { c with efKeys := p :: c.efKeys }
+          match c.efs[p.1]? with
+          | some EFut.pending => { c with efCb := c.efCb ++ [p.1] }
+          | some _ => { c with ready := c.ready ++ [.adone p.1] }
+          | none => c) d) f h := by
+      intro l; induction l with
+      | nil => intro d; rfl
+      | cons a l ih =>
+        intro d; simp only [List.foldl]
+        rw [← ih]
+        congr 1
+        simp only [sfh]; comm_sfh
+    exact this aw c
+  · rfl
+theorem setState_sfh (c : Cfg) (s f h) : setState (sfh c f h) s = sfh (setState c s) f h := rfl
+theorem enteredHooks_sfh (c : Cfg) (s f h) : enteredHooks (sfh c f h) s = sfh (enteredHooks c s) f h := by
+  simp only [enteredHooks, sfh]; comm_sfh
+theorem releasePause_sfh (c : Cfg) (f h) : releasePause (sfh c f h) = sfh (releasePause c) f h := by
+  simp only [releasePause, sfh]; comm_sfh
+theorem onClose_sfh (c : Cfg) (f h) : onClose (sfh c f h) = sfh (onClose c) f h := by
+  simp only [onClose, sfh]; comm_sfh
+theorem onTerminated_sfh (c : Cfg) (f h) : onTerminated (sfh c f h) = sfh (onTerminated c) f h := by
+  unfold onTerminated; rw [releasePause_sfh, onClose_sfh]
+theorem enterNext_sfh (c : Cfg) (s f h) : enterNext (sfh c f h) s = sfh (enterNext c s) f h := by
+  unfold enterNext; dsimp only
+  rw [enterState_sfh, setState_sfh, enteredHooks_sfh]
+  split
+  · exact onTerminated_sfh ..
+  · rfl
+
+theorem exitState_futs (c : Cfg) : (exitState c).fut = c.fut ∧ (exitState c).futHasKillCb = c.futHasKillCb ∧ (exitState c).closed = c.closed := by
+  unfold exitState; split
+  · dsimp only; split <;> exact ⟨rfl, rfl, rfl⟩
+  · exact ⟨rfl, rfl, rfl⟩
+
+theorem forceExcepted_cancelled (c : Cfg) (hf : c.fut = .pending) (e : Exc) :
+    ∃ f h, forceExcepted (sfh c .cancelled c.futHasKillCb) e = sfh (forceExcepted c e) f h := by
+  unfold forceExcepted
+  have hc : (sfh c .cancelled c.futHasKillCb).closed = c.closed := rfl
+  rw [hc]; split
+  · exact ⟨.cancelled, c.futHasKillCb, rfl⟩
+  · have h1 : setFutExc (sfh c .cancelled c.futHasKillCb) e = sfh c (.exc e) false := by simp [setFutExc, sfh]
+    have h2 : setFutExc c e = sfh c (.exc e) c.futHasKillCb := by simp [setFutExc, sfh, hf]
+    simp only [h1, h2, setState_sfh, enteredHooks_sfh, onTerminated_sfh]
+    exact ⟨.exc e, false, rfl⟩
+
+theorem transitionTo_killed_cancelled (c : Cfg) (hf : c.fut = .pending) :
+    ∃ f h, transitionTo (sfh c .cancelled c.futHasKillCb) .killed = sfh (transitionTo c .killed) f h := by
+  unfold transitionTo
+  have hst : (sfh c .cancelled c.futHasKillCb).st = c.st := rfl
+  have hcl : (sfh c .cancelled c.futHasKillCb).closed = c.closed := rfl
+  simp only [hst, hcl]
+  split
+  · rw [exitState_sfh]
+    split
+    · exact ⟨.cancelled, c.futHasKillCb, rfl⟩
+    · obtain ⟨hef, hek, _⟩ := exitState_futs c
+      rw [hf] at hef
+      have h1 : enteringHooks (sfh (exitState c) .cancelled c.futHasKillCb) .killed =
+          .ok (sfh (exitState c) (.exc .killedErr) false) := by
+        simp [enteringHooks, freshFutIfCancelled, futCancelled, sfh]
+      have h2 : enteringHooks (exitState c) .killed = .ok (sfh (exitState c) (.exc .killedErr) c.futHasKillCb) := by
+        simp [enteringHooks, freshFutIfCancelled, futCancelled, hef, sfh, hek]
+      rw [h1, h2]; dsimp only; rw [enterNext_sfh, enterNext_sfh]
+      exact ⟨_, false, rfl⟩
+  · exact forceExcepted_cancelled c hf _
+
+/-- `kill()` on a configuration whose pending future has been cancelled: the same configuration, another future object; the
+same return value -/
+theorem kill_cancelled (c : Cfg) (hf : c.fut = .pending) :
+    (∃ f h, (kill (sfh c .cancelled c.futHasKillCb)).1 = sfh (kill c).1 f h) ∧
+    (kill (sfh c .cancelled c.futHasKillCb)).2 = (kill c).2 := by
+  unfold kill
+  have hst : (sfh c .cancelled c.futHasKillCb).st = c.st := rfl
+  have hki : (sfh c .cancelled c.futHasKillCb).killing = c.killing := rfl
+  have hsp : (sfh c .cancelled c.futHasKillCb).stepping = c.stepping := rfl
+  simp only [hst, hki, hsp]
+  split
+  · exact ⟨⟨_, _, rfl⟩, rfl⟩
+  · split
+    · exact ⟨⟨_, _, rfl⟩, rfl⟩
+    · split
+      · rw [hand_sfh]; exact ⟨⟨_, _, rfl⟩, rfl⟩
+      · split
+        · rw [requestInterrupt_sfh]
+          have hi : (sfh (requestInterrupt c .kill) .cancelled c.futHasKillCb).interrupt = (requestInterrupt c .kill).interrupt := rfl
+          simp only [hi]
+          split
+          · refine ⟨⟨.cancelled, c.futHasKillCb, ?_⟩, rfl⟩
+            exact hand_sfh { requestInterrupt c .kill with killing := (requestInterrupt c .kill).interrupt } _ _ _
+          · exact ⟨⟨_, _, rfl⟩, rfl⟩
+        · obtain ⟨f, h, e⟩ := transitionTo_killed_cancelled c hf
+          exact ⟨⟨f, h, e⟩, rfl⟩
+
+theorem erase_append_self (l : List Cb) (a : Cb) (h : a ∉ l) : (l ++ [a]).erase a = l := by
+  induction l with
+  | nil => simp
+  | cons b l ih =>
+    have hne : b ≠ a := fun hh => h (by rw [hh]; exact List.mem_cons_self ..)
+    have hnl : a ∉ l := fun hh => h (List.mem_cons_of_mem _ hh)
+    simp [List.erase_cons, hne, ih hnl]
+
+/-- `a` is `b` up to the process-future object, its hook flag and the list of action futures handed to callers -/
+def SameButFut (a b : Cfg) : Prop := { a with fut := b.fut, futHasKillCb := b.futHasKillCb, handed := b.handed } = b
+
+/-- **cancelling the future is a kill**: with the hook installed on a pending future, `future().cancel()` succeeds and schedules
+`try_killing`; when that callback runs next, the configuration is the one `kill()` would have produced, up to the future object
+(cancelled; replaced when the process terminates, repair H) -/
+theorem cancel_then_trykill (c : Cfg) (hf : c.fut = .pending) (hh : FutHook c) :
+    (cancelFut c).2 = .bool true ∧ Cb.trykill ∈ (cancelFut c).1.ready ∧
+    SameButFut (tickCb (cancelFut c).1 .trykill) (kill c).1 := by
+  obtain ⟨hk, hnr⟩ := hh hf
+  have hcf : cancelFut c = ({ c with fut := .cancelled, ready := c.ready ++ [.trykill] }, .bool true) := by
+    unfold cancelFut; simp [hf, hk]
+  rw [hcf]
+  refine ⟨rfl, by simp, ?_⟩
+  have ht : tickCb { c with fut := .cancelled, ready := c.ready ++ [.trykill] } .trykill =
+      tryKilling (sfh c .cancelled c.futHasKillCb) := by
+    unfold tickCb
+    have : (c.ready ++ [Cb.trykill]).contains Cb.trykill = true := by simp
+    simp only [this, if_true, erase_append_self c.ready .trykill hnr]
+    rfl
+  rw [ht]
+  obtain ⟨⟨f, h, e⟩, _⟩ := kill_cancelled c hf
+  unfold tryKilling SameButFut
+  rw [e]; rfl
+
 end PMF
